@@ -149,7 +149,21 @@ func True(a string) Atom  { return Atom{Desc: a, Kind: "bool", A: Glob(a), Pol: 
 func False(a string) Atom { return Atom{Desc: "!" + a, Kind: "bool", A: Glob(a), Pol: false} }
 
 // matches reports whether pred with the given truth value satisfies the atom.
+// matches: also tried with the "read through memory" markers removed — they are not part of the vocabulary of the
+// rule tables (assumption A-flow), and whether a local record is address-taken changes with refactoring (&rec
+// handed to a helper).
 func (a Atom) matches(p Pred, truth bool) bool {
+	if a.matches1(p, truth) {
+		return true
+	}
+	if strings.Contains(p.A, "~") || strings.Contains(p.B, "~") {
+		q := Pred{p.Kind, strings.ReplaceAll(p.A, "~", ""), strings.ReplaceAll(p.B, "~", "")}
+		return a.matches1(q, truth)
+	}
+	return false
+}
+
+func (a Atom) matches1(p Pred, truth bool) bool {
 	// X == c1 (holding) establishes X != c2 for a different constant c2
 	if a.Kind == "eq" && p.Kind == "eq" && !a.Pol && truth && isConstTerm(a.rawB) {
 		if isConstTerm(p.B) && p.B != a.rawB && a.A.MatchString(p.A) {
@@ -218,6 +232,7 @@ func substParams(s string, subst []string, unknown string) string {
 // pred: CondPred with parameter tokens rewritten to the caller's argument terms.
 func (c *Checker) pred(v ssa.Value) (Pred, bool, bool) {
 	p, pol, ok := CondPred(c.Res, v)
+
 	if ok && len(c.Subst) > 0 {
 		sub := func(s string) string { return substParams(s, c.Subst, "#callee") }
 		p.A, p.B = sub(p.A), sub(p.B)
